@@ -236,7 +236,9 @@ def judge(kind, got, req, arrays, strip, ep):
         ok = ok and sorted(tree.size_dict.values()) == sorted(size.values())
         if not ok:
             return True
-        if strip:
+        if strip or n == 1:
+            # a single-tensor 'tree' has no pairwise step to execute (array_contract handles
+            # that case without a tree): structure only
             return False
         val = tree.contract(arrays)
         return symarr.diff_formula(symarr.as_obj_array(val), symarr.dense_einsum(inputs, output, size, arrays))
@@ -284,7 +286,7 @@ def replay(v):
                 return True, f"{ep} sequence {case['seq']}: call {k} returned path {got} for request {ri} (optimize={req['optimize']!r})"
             continue
         if kind == "tree":
-            val = None if strip else got.contract(arrays)
+            val = None if (strip or len(req["inputs"]) == 1) else got.contract(arrays)
         else:
             if strip:
                 if judge(kind, got, req, arrays, strip, ep):
